@@ -27,8 +27,15 @@ func ctxValueOfKey(v ssa.Value) string {
 // ctxValueOfKeyS resolves the key through helper parameters; a string helper `f(ctx, key)` every non-empty result of which is
 // ctx.Value(key).(string) counts as that context value.
 func ctxValueOfKeyS(v ssa.Value, sub Subst, depth int) string {
-	if call, ok := v.(*ssa.Call); ok && depth < 2 && call.Call.StaticCallee() != nil && prog.InModule(call.Call.StaticCallee()) {
-		rvs, isH := HelperResults(call)
+	v = sub.Res(v)
+	var hcall *ssa.Call
+	if call, ok := v.(*ssa.Call); ok {
+		hcall = call
+	} else if ex, ok := v.(*ssa.Extract); ok {
+		hcall, _ = ex.Tuple.(*ssa.Call) // a (name, ok) helper: the name component
+	}
+	if hcall != nil && depth < 2 && !hcall.Call.IsInvoke() && hcall.Call.StaticCallee() != nil && prog.InModule(hcall.Call.StaticCallee()) {
+		rvs, isH := HelperResults(v)
 		if !isH || len(rvs) == 0 {
 			return ""
 		}
@@ -282,46 +289,65 @@ func (c *Ctx) PeerGate(prop string) {
 	for L := range lookups {
 		bad := false
 		nz := 0
-		for _, ret := range an.Returns(L) {
-			for _, o := range ValueOrigins(an.Result(ret, 0), ret) {
-				if o.Kind == "const" {
-					if o.Const != 0 {
-						bad = true
-						c.R.Fail(rule, Fn(L)+":lookup", c.Pos(o.Site), "the peer lookup can return a fixed non-zero id", "non-zero only for a peer whose name equals the authenticated client name", nil)
+		cmpFn := L // the function holding the name comparison
+		var walk func(F *ssa.Function, sub Subst, depth int)
+		walk = func(F *ssa.Function, sub Subst, depth int) {
+			for _, ret := range an.Returns(F) {
+				for _, o := range ValueOrigins(an.Result(ret, 0), ret) {
+					if o.Kind == "const" {
+						if o.Const != 0 {
+							bad = true
+							c.R.Fail(rule, Fn(L)+":lookup", c.Pos(o.Site), "the peer lookup can return a fixed non-zero id", "non-zero only for a peer whose name equals the authenticated client name", nil)
+						}
+						continue
 					}
-					continue
-				}
-				nz++
-				site := o.Site
-				x, path := an.Cut(an.CutQuery{From: an.Entry(L), Target: func(i ssa.Instruction) bool { return i == site },
-					AcceptEdge: func(b *ssa.BasicBlock, i int, a *an.Atom) bool {
-						if a == nil || a.Op != "==" {
+					// the id may be looked up by a package helper that is given the client name
+					if call, isCall := an.Result(ret, 0).(*ssa.Call); isCall && depth < 2 && !call.Call.IsInvoke() {
+						if P := call.Call.StaticCallee(); P != nil && prog.InModule(P) && P.Blocks != nil {
+							ns := Subst{}
+							for k, q := range P.Params {
+								if k < len(call.Call.Args) {
+									ns[q] = sub.Res(call.Call.Args[k])
+								}
+							}
+							cmpFn = P
+							walk(P, ns, depth+1)
+							continue
+						}
+					}
+					nz++
+					site := o.Site
+					x, path := an.Cut(an.CutQuery{From: an.Entry(F), Target: func(i ssa.Instruction) bool { return i == site },
+						AcceptEdge: func(b *ssa.BasicBlock, i int, a *an.Atom) bool {
+							if a == nil || a.Op != "==" {
+								return false
+							}
+							for _, side := range [][2]ssa.Value{{a.LV, a.RV}, {a.RV, a.LV}} {
+								owner, f, _ := an.FieldOf(side[0])
+								if owner == nil || f != "Name" || !namedIs(owner, pkgCore, "Endpoint") {
+									continue
+								}
+								if ctxValueOfKeyS(side[1], sub, 0) == "ClientName" {
+									return true
+								}
+							}
 							return false
-						}
-						for _, side := range [][2]ssa.Value{{a.LV, a.RV}, {a.RV, a.LV}} {
-							owner, f, _ := an.FieldOf(side[0])
-							if owner == nil || f != "Name" || !namedIs(owner, pkgCore, "Endpoint") {
-								continue
-							}
-							if ctxValueOfKey(side[1]) == "ClientName" {
-								return true
-							}
-						}
-						return false
-					}})
-				// the id returned must be the key of the entry whose name matched: same iteration
-				if x != nil {
-					bad = true
-					c.R.Fail(rule, Fn(L)+":lookup", c.Pos(site), "the peer lookup can yield a peer id without the peer's configured name being equal to the caller's authenticated name", "id only below [peer.Name == ctx.Value(ClientName)]", an.PathString(c.Pos, path))
+						}})
+					// the id returned must be the key of the entry whose name matched: same iteration
+					if x != nil {
+						bad = true
+						c.R.Fail(rule, Fn(F)+":lookup", c.Pos(site), "the peer lookup can yield a peer id without the peer's configured name being equal to the caller's authenticated name", "id only below [peer.Name == ctx.Value(ClientName)]", an.PathString(c.Pos, path))
+					}
 				}
 			}
 		}
+		walk(L, Subst{}, 0)
 		if nz == 0 {
 			bad = true
 			c.R.Fail(rule, Fn(L)+":lookup", c.P.FuncPos(L), "the peer lookup never yields an id", "id of the peer named like the caller", nil)
 		}
 		// the id and the name come from the same peer-table entry
-		if !bad && !sameEntryIDName(L) {
+		if !bad && !sameEntryIDName(cmpFn) {
 			bad = true
 			c.R.Fail(rule, Fn(L)+":lookup", c.P.FuncPos(L), "the id returned is not the table key of the entry whose name was compared", "for id, peer := range peers { if peer.Name == client { return id } }", nil)
 		}
